@@ -16,6 +16,14 @@ use crate::{
     io::writer::{Context, Record},
 };
 
+/// Crate-private writers for the verification harness.
+#[cfg(noodles_verif)]
+pub(crate) mod verif {
+    pub use super::encoding::{
+        write_byte_array_encoding, write_byte_encoding, write_integer_encoding,
+    };
+}
+
 pub fn write_compression_header<W>(
     writer: &mut W,
     compression_header: &CompressionHeader,
